@@ -889,14 +889,46 @@ func (w *netWorld) checkC01(deliverNeed time.Duration) {
 					if j == pb.node {
 						role = "own"
 					}
-					s.violate("C01", "complete", fmt.Sprintf("C01/missing/%s/%s", w.router[j], role),
-						"publication #%d by N%d (%s) on %s at %v never reached N%d (%s) sub%d within %v; routers=%s edges=%s", pb.seq, pb.node, w.router[pb.node], pb.topic, pb.at, j, w.router[j], sid, now-pb.at, w.plan.ks("routers", ""), w.edgeList())
+					sig := fmt.Sprintf("C01/missing/%s/%s", w.router[j], role)
+					extra := ""
+					if x, p := w.staleMeshMember(pb.topic); x >= 0 {
+						// (classification of a recorded finding, see KNOWN_FINDINGS.json: some node keeps a
+						// peer in its mesh that has left the topic; the slot it occupies makes the node
+						// prune real subscribers, whose meshes then never settle)
+						sig = "C01/missing/stale-mesh-member"
+						extra = fmt.Sprintf("; N%d holds %s in its mesh of %s although that peer is not in the topic", x, w.nameOf(string(p)), pb.topic)
+					}
+					s.violate("C01", "complete", sig,
+						"publication #%d by N%d (%s) on %s at %v never reached N%d (%s) sub%d within %v; routers=%s edges=%s%s", pb.seq, pb.node, w.router[pb.node], pb.topic, pb.at, j, w.router[j], sid, now-pb.at, w.plan.ks("routers", ""), w.edgeList(), extra)
 				} else {
 					s.probe("c01_delivery_confirmed")
 				}
 			}
 		}
 	}
+}
+
+// staleMeshMember: a gossipsub node whose mesh of the topic contains a peer that is not (any
+// more) in the topic as that node knows it. Read from the nodes at quiescence; used only to tell a
+// recorded finding from other causes of a missing delivery, never by the oracle itself.
+func (w *netWorld) staleMeshMember(topic string) (int, peer.ID) {
+	for i, n := range w.nodes {
+		gs, ok := n.ps.rt.(*GossipSubRouter)
+		if !ok {
+			continue
+		}
+		var ids []string
+		for p := range gs.mesh[topic] {
+			if _, in := n.ps.topics[topic][p]; !in {
+				ids = append(ids, string(p))
+			}
+		}
+		if len(ids) > 0 {
+			sort.Strings(ids)
+			return i, peer.ID(ids[0])
+		}
+	}
+	return -1, ""
 }
 
 func (w *netWorld) edgeList() string {
